@@ -982,6 +982,10 @@ enum MStep {
     Trait(HVal),
     Move,
     Drop,
+    /// the object is dropped WHILE THE THREAD IS UNWINDING from a panic (`std::thread::panicking()` is true), inside a nested
+    /// `catch_unwind`: `false` = `DU`, owned by the frame of a closure that panics (the unwinding itself drops it); `true` = `DG`,
+    /// owned by a scope guard whose own `Drop` drops it during that unwinding. For the model both are a drop.
+    DropUnw(bool),
     /// `std::mem::forget`: the object ceases to exist without `Drop` (what it had delivered so far is not looked at)
     Leak,
     Read(RKind),
@@ -994,6 +998,8 @@ fn parse_mstep(s: &str) -> Option<(usize, MStep)> {
     let step = match rest {
         ["N", a, b] => MStep::NewW(a.parse().ok()?, b.parse().ok()?),
         ["D"] => MStep::Drop,
+        ["DU"] => MStep::DropUnw(false),
+        ["DG"] => MStep::DropUnw(true),
         ["MV"] => MStep::Move,
         ["LK"] => MStep::Leak,
         ["RS"] => MStep::Read(RKind::Str),
@@ -1024,6 +1030,30 @@ fn parse_mstep(s: &str) -> Option<(usize, MStep)> {
 enum Slot {
     W { w: Vec<ManuallyDrop<Writer<'static>>>, data: Rc<RefCell<Vec<u8>>>, want: Vec<u8> },
     R(Vec<Reader<'static>>),
+}
+
+/// A scope guard: its destructor ends the life of the object it holds.
+struct EndOfScope<T>(Option<T>);
+
+impl<T> Drop for EndOfScope<T> {
+    fn drop(&mut self) {
+        drop(self.0.take());
+    }
+}
+
+/// Drops `x` while this thread is unwinding from a panic (nested `catch_unwind`; the panic is a real `panic!`, so
+/// `std::thread::panicking()` is true in `x`'s destructor).
+fn drop_while_unwinding<T>(x: T, guard: bool) {
+    let r = std::panic::catch_unwind(std::panic::AssertUnwindSafe(move || {
+        if guard {
+            let _g = EndOfScope(Some(x));
+            panic!("harness: unwinding on purpose (guard)");
+        } else {
+            let _owned = x;
+            panic!("harness: unwinding on purpose");
+        }
+    }));
+    assert!(r.is_err());
 }
 
 fn oracle_op(op: &Op, want: &mut Vec<u8>) {
@@ -1079,7 +1109,7 @@ fn run_mcase(line: &str) -> String {
                 MStep::NewR(_, _) => k < SLOTS && rbuf > 0 && kind[k] == 0,
                 MStep::Pub(_) | MStep::Trait(_) => k < SLOTS && kind[k] == 1,
                 MStep::Read(_) => k < SLOTS && kind[k] == 2,
-                MStep::Move | MStep::Drop | MStep::Leak => k < SLOTS && kind[k] != 0,
+                MStep::Move | MStep::Drop | MStep::DropUnw(_) | MStep::Leak => k < SLOTS && kind[k] != 0,
             };
             if !ok {
                 return out1("INVALID");
@@ -1087,7 +1117,7 @@ fn run_mcase(line: &str) -> String {
             match st {
                 MStep::NewW(..) => kind[k] = 1,
                 MStep::NewR(..) => kind[k] = 2,
-                MStep::Drop | MStep::Leak => kind[k] = 0,
+                MStep::Drop | MStep::DropUnw(_) | MStep::Leak => kind[k] = 0,
                 _ => {}
             }
         }
@@ -1162,6 +1192,18 @@ fn run_mcase(line: &str) -> String {
                             }
                         }
                     }
+                    MStep::DropUnw(guard) => match slots[k].take() {
+                        Some(Slot::W { mut w, data, want }) => {
+                            let x = ManuallyDrop::into_inner(w.pop().unwrap());
+                            drop_while_unwinding(x, *guard);
+                            evs.borrow_mut().push(format!("{}:D={}", k, drop_str(&data.borrow())));
+                            if *data.borrow() != want {
+                                fmt_ok.set(false);
+                            }
+                        }
+                        Some(Slot::R(mut r)) => drop_while_unwinding(r.pop().unwrap(), *guard),
+                        None => {}
+                    },
                     MStep::Leak => match slots[k].take() {
                         Some(Slot::W { mut w, .. }) => std::mem::forget(w.pop().unwrap()),
                         Some(Slot::R(mut r)) => std::mem::forget(r.pop().unwrap()),
@@ -1682,6 +1724,64 @@ fn gen_multi(g: &mut Gen, rng: &mut SplitMix64, thorough: bool, mags: &[u128], s
             st.bump("m_leaked_then_new");
         }
     }
+    // (8e) a writer holding pending bytes is dropped WHILE THE THREAD IS UNWINDING from a panic: by the unwinding itself (DU) or by a
+    //      scope guard's destructor that runs during it (DG); pending via the trait method (both builds) or an inherent call (buffered
+    //      build), every sink kind, pieces small / at the fill boundary / larger than the buffer, after a flush, after a move, with a
+    //      second writer alive, and a whole writer life (create, write, drop) right after another writer's unwinding drop
+    let u_pend: Vec<String> = vec![
+        "T x:616e73776572".into(), "W x:616e73776572".into(), "T i64:-9223372036854775808".into(), "C 10".into(), "L 2 i64:-7 x:6c6f67".into(),
+        "T v 3 u8:1 u8:2 u8:3".into(), format!("T s:0:{}:1", buf.saturating_sub(1)), format!("T s:0:{}:2", buf), format!("W s:1:{}:3", buf + 5),
+        "T t 2 x:746f74616c i64:-9223372036854775808".into(),
+    ];
+    for (pi, pend) in u_pend.iter().enumerate() {
+        for (si, (sk, sj)) in [(0usize, 0usize), (1, 0), (0, 2), (3, 2), (buf / 3 + 1, 3)].iter().enumerate() {
+            for variant in 0..6usize {
+                if !thorough && (pi + si + variant) % 2 != 0 {
+                    continue;
+                }
+                let du = if (pi + si + variant / 2) % 2 == 0 { "DU" } else { "DG" };
+                let mut steps: Vec<String> = vec![format!("0 N {} {}", sk, sj)];
+                match variant {
+                    0 => steps.push(format!("0 {}", pend)),
+                    1 => {
+                        steps.push("0 W x:686561640a".into());
+                        steps.push("0 F".into());
+                        steps.push(format!("0 {}", pend));
+                        steps.push("0 T x:0a".into());
+                    }
+                    2 => {
+                        steps.push(format!("0 {}", pend));
+                        steps.push("0 MV".into());
+                        steps.push("0 T u8:0".into());
+                    }
+                    3 => {
+                        steps.push("1 N 0 0".into());
+                        steps.push("1 T x:6c6f67".into());
+                        steps.push(format!("0 {}", pend));
+                    }
+                    4 => {
+                        steps.push(format!("0 {}", pend));
+                        steps.push(format!("0 {}", du));
+                        steps.push(format!("0 N {} {}", sk, sj)); // a complete life right after
+                        steps.push("0 T x:746f74616c".into());
+                        steps.push("0 T x:20".into());
+                        steps.push(format!("0 {}", pend));
+                    }
+                    _ => {
+                        steps.push(format!("0 T s:0:{}:{}", buf.saturating_sub(pi + 1), si));
+                        steps.push(format!("0 {}", pend));
+                    }
+                }
+                steps.push(format!("0 {}", du));
+                if variant == 3 {
+                    steps.push("1 T x:0a".into());
+                    steps.push(format!("1 {}", if du == "DU" { "DG" } else { "DU" }));
+                }
+                g.mcase(&steps);
+                st.bump("m_drop_while_unwinding");
+            }
+        }
+    }
     // (8c) a Writer and a Reader alive together: the reader has buffered unread input while the writer writes, the writer has
     //      pending bytes while the reader refills
     for i in 0..(if thorough { 2000 } else { 120 }) {
@@ -1753,10 +1853,12 @@ fn gen_multi(g: &mut Gen, rng: &mut SplitMix64, thorough: bool, mags: &[u128], s
             let k = *rng.pick(&live);
             match rng.below(20) {
                 0 => {
-                    steps.push(format!("{} D", k));
+                    // every third drop happens while the thread is unwinding (no extra random draw)
+                    let how = ["D", "DU", "D", "DG", "D", "D"][(stp + k) % 6];
+                    steps.push(format!("{} {}", k, how));
                     kind[k] = 0;
                     reads[k].clear();
-                    st.bump("m_drop");
+                    st.bump(if how == "D" { "m_drop" } else { "m_drop_unwinding_random" });
                 }
                 1 => {
                     steps.push(format!("{} MV", k));
